@@ -111,10 +111,11 @@ def run(index, tier="quick", seed=0) -> Result:
 
         ret_div = None
         neg = False
-        for r in ast.walk(kn):
-            if isinstance(r, ast.Return) and isinstance(r.value, ast.BinOp) and isinstance(r.value.op, ast.Div):
-                ret_div = fold(r.value.right)
-                neg = isinstance(r.value.left, ast.UnaryOp) and isinstance(r.value.left.op, ast.USub)
+        from ..astutil import returns as _returns
+        for _r, rv in _returns(kn):
+            if isinstance(rv, ast.BinOp) and isinstance(rv.op, ast.Div):
+                ret_div = fold(rv.right)
+                neg = isinstance(rv.left, ast.UnaryOp) and isinstance(rv.left.op, ast.USub)
         if role == "diag":
             ok = False
             if len(es) == 1:
@@ -337,7 +338,7 @@ def _pax(res, index):
     rets = [n for n in ast.walk(fn.node) if isinstance(n, ast.Return) and n.value is not None]
     if len(rets) != 1:
         raise AnalysisError("translate_inertia_tensor: not a single return expression")
-    got = ev(rets[0].value)
+    got = ev(rets[0].value)      # ev looks through local temporaries itself
     want = Poly.atom("I") + Poly.atom("V") * (Poly.atom("INNER") * Poly.atom("EYE") - Poly.atom("OUTER"))
     if got is None:
         res.bad("PAX", "translate_inertia_tensor", where, "translate_inertia_tensor is not I + V (|d|^2 1 - d (x) d): the returned expression is not a "
